@@ -962,38 +962,48 @@ def _check_api(route, stmts, raw, order, dump, outcomes, expected, fail, modelle
 
 
 def _check_batch_relate(stmts, raw, expected, fail, stats):
-    """`Association.batch_relate`: the second implementation of the join in xtuml/meta.py (a query per referring instance
-    instead of the loader's hash index).  The phases of the loader are run up to the instances, then every association
-    is batch-related; D: the links are exactly the key-matching pairs."""
-    l = _x.ModelLoader()
-    l.input(G.text_of(stmts))
-    m = _x.MetaModel()
+    """`Association.batch_relate`, the second implementation of the join in xtuml/meta.py (a query per referring
+    instance instead of the loader's hash index), used the supported way: classes and associations are defined, the
+    rows are created through the API with their referential values as plain attributes (the associations are not
+    formalised yet), every association is batch-related and only then formalised.  D: the links are exactly the
+    key-matching pairs."""
+    if not all(G.class_of(stmts, s_['kind']) for s_ in stmts if s_['t'] == 'insert'):
+        return
+    m = _x.MetaModel(_x.IntegerGenerator())
+    inst_of = {}
     try:
-        l.populate_classes(m)
-        l.populate_unique_identifiers(m)
-        l.populate_associations(m)
-        l.populate_instances(m)
-        for ass in m.associations:
+        for s_ in stmts:
+            if s_['t'] == 'cls':
+                m.define_class(s_['kind'], [(n, t) for n, t in s_['attrs']])
+        asses = []
+        for s_ in stmts:
+            if s_['t'] == 'assoc':
+                asses.append(m.define_association(s_['rel'], s_['sk'], list(s_['skeys']), 'M' in s_['scard'], 'C' in s_['scard'],
+                                                  s_['sph'], s_['tk'], list(s_['tkeys']), 'M' in s_['tcard'], 'C' in s_['tcard'],
+                                                  s_['tph']))
+        for i, s_ in enumerate(stmts):
+            if s_['t'] == 'insert':
+                c = G.class_of(stmts, s_['kind'])
+                inst_of[i] = m.new(s_['kind'], *[None if raw[i].get(n) is None else G.py_value(raw[i][n]) for n, _ in c['attrs']])
+        for ass in asses:
             ass.batch_relate()
+        for ass in asses:
+            ass.formalize()
     except RecursionError:
-        return          # a cyclic chain of referential properties (A.x -> B.y -> A.x): nothing to compare
+        return
     except _DOC as e:
         fail('batch-relate-raises', 'Association.batch_relate raised %s: %s; input:\n%s' % (type(e).__name__, e, G.text_of(stmts)))
         return
     stats['batch_relate'] = 1
-    ids = _ids_by_kind(stmts, range(len(stmts)))
+    stmt_of = dict((id(o), i) for i, o in inst_of.items())
     ai = [i for i, s_ in enumerate(stmts) if s_['t'] == 'assoc']
-    for n, ass in enumerate(m.associations):
+    for n, ass in enumerate(asses):
         a = stmts[ai[n]]
-        S, T = ids.get(a['sk'], []), ids.get(a['tk'], [])
-        sc, tc = ass.source_link.to_metaclass, ass.target_link.to_metaclass
-        spos = dict((id(o), S[k]) for k, o in enumerate(sc.storage))
-        tpos = dict((id(o), T[k]) for k, o in enumerate(tc.storage))
-        f = set((spos.get(id(i_)), tpos.get(id(o))) for i_ in sc.storage for o in ass.target_link.get(i_, ()))
-        b = set((spos.get(id(o)), tpos.get(id(i_))) for i_ in tc.storage for o in ass.source_link.get(i_, ()))
+        f = set((stmt_of.get(id(i_)), stmt_of.get(id(o))) for i_, os_ in ass.target_link.items() for o in os_)
+        b = set((stmt_of.get(id(o)), stmt_of.get(id(i_))) for i_, os_ in ass.source_link.items() for o in os_)
         if f != expected[ai[n]] or b != expected[ai[n]]:
-            fail('batch-relate-differs', 'Association.batch_relate links %s / %s over %s, the key predicate gives %s; input:\n%s'
-                 % (sorted(f, key=str), sorted(b, key=str), a['rel'], sorted(expected[ai[n]]), G.text_of(stmts)))
+            fail('batch-relate-differs', 'Association.batch_relate (before formalize) links %s / %s over %s, the key predicate '
+                 'gives %s; input:\n%s' % (sorted(f, key=str), sorted(b, key=str), a['rel'], sorted(expected[ai[n]]), G.text_of(stmts)))
             return
 
 
